@@ -178,3 +178,9 @@ Theorem C08_maxwell_far_field_translation :
     = cmul (cexp_mik k 0 (vdot x t)) (mfield_far_field_integrand c x y (G_ff x y (k, 0)) v q (k, 0)).
 Proof. exact maxwell_far_field_translation. Qed.
 Print Assumptions C08_maxwell_far_field_translation.
+
+(* every translated factory hands its `points` argument to the assembler unchanged (the translator records an assignment to
+   `points` inside a factory body as a fact of the table instead of failing closed; the return statement is matched literally) *)
+Theorem C08_factories_pass_points_through : List.Forall (fun f => f_alters_points f = false) factories.
+Proof. exact factories_pass_points_through. Qed.
+Print Assumptions C08_factories_pass_points_through.
